@@ -77,8 +77,8 @@ Definition table2 : list (string * (list Z -> list Z)) :=
   ("pow_i32", f2 pow_i32) :: ("pow_u32", f2 pow_u32) :: ("inv3", f3 inv3) :: ("invin", f2 invin) ::
   ("powmod3_I", f3 powmod3_I) :: ("powmod_I", f3 powmod_I) :: 
   ("powmod3_u64", f3 powmod3_u64) :: ("powmod_u64", f3 powmod_u64) :: 
-  ("powmod3_i64", f4 powmod3_i64) :: ("powmod_i64", f3 powmod_i64) :: ("powmod3_u32", f3 powmod3_u32) ::
-  ("powmod3_i32", f4 powmod3_i32) :: ("powmod_u32", f3 powmod_u32) :: 
+  ("powmod3_i64", f3 powmod3_i64) :: ("powmod_i64", f3 powmod_i64) :: ("powmod3_u32", f3 powmod3_u32) ::
+  ("powmod3_i32", f3 powmod3_i32) :: ("powmod_u32", f3 powmod_u32) :: 
   ("powmod_i32", f3 powmod_i32) :: ("lcm_v", f2 lcm_v) :: ("lcm3", f2 lcm3) :: ("gcd_v", f2 gcd_v) ::
   ("gcd3", f2 gcd3) :: ("gcdext_v", t2 gcdext_v) :: ("gcdext5", t2 gcdext5) :: ("sqrt2", f1 sqrt2) ::
   ("sqrtrem3", p1 sqrtrem3) :: ("sqrt_v", f1 sqrt_v) :: ("sqrtrem_v", p1 sqrtrem_v) :: ("root", rb2 root) ::
